@@ -711,4 +711,554 @@ theorem parseProgram_of_spec {p : Bytes} {r : List Inst} {fuel : Nat} (hlen : p.
   have e : fuel + (p.length + 1 - fuel) = p.length + 1 := by omega
   rwa [e] at this
 
+
+/-! ### Disassemble through the suffix decoder -/
+
+def collectLabels : List (Nat × Nat) → List Inst → Except PErr (List (Nat × Nat))
+  | ls, [] => .ok ls
+  | ls, i :: r =>
+    match stepLabels ls i with
+    | .error e => .error e
+    | .ok ls' => collectLabels ls' r
+
+theorem disPass1_eq (fuel : Nat) : ∀ (pre s : Bytes) (ls : List (Nat × Nat)) (is : List Inst),
+    (pre ++ s).length ≤ maxInt32 → specProg fuel pre.length s = .ok is →
+    disPass1 (pre ++ s) fuel pre.length ls =
+      match collectLabels ls is with
+      | .error e => .error e
+      | .ok lf => .ok (is, lf) := by
+  induction fuel with
+  | zero => intro pre s ls is _ h; simp [specProg] at h
+  | succ fuel ih =>
+    intro pre s ls is hlen h
+    have hlen' := hlen
+    simp only [List.length_append, maxInt32] at hlen'
+    have hl : u32 (pre ++ s).length = (pre ++ s).length := u32_id (by simp only [List.length_append]; omega)
+    unfold disPass1
+    unfold specProg at h
+    cases s with
+    | nil =>
+      simp only [] at h
+      injection h with h; subst h
+      simp only [List.append_nil] at hl ⊢
+      simp [hl, collectLabels]
+    | cons b t =>
+      simp only [] at h
+      have c : pre.length < u32 (pre ++ b :: t).length := by rw [hl]; simp
+      simp only [c, if_true]
+      rw [parseOp_eq pre (b :: t) hlen (by simp)]
+      cases hsp : specOp pre.length (b :: t) with
+      | error e => rw [hsp] at h; cases h
+      | ok i =>
+        rw [hsp] at h
+        simp only [] at h ⊢
+        cases hrec : specProg fuel (pre.length + i.len) ((b :: t).drop i.len) with
+        | error e => rw [hrec] at h; cases h
+        | ok rest =>
+          rw [hrec] at h
+          injection h with h; subst h
+          obtain ⟨hle, henc⟩ := specOp_ok hsp
+          have hu : u32 (pre.length + i.len) = pre.length + i.len := u32_id (by omega)
+          have hsplit : pre ++ b :: t = (pre ++ (b :: t).take i.len) ++ (b :: t).drop i.len := by
+            rw [List.append_assoc, List.take_append_drop]
+          have hlen2 : (pre ++ (b :: t).take i.len).length = pre.length + i.len := by
+            rw [List.length_append, List.length_take]; omega
+          have hrec' := hrec
+          rw [← hlen2] at hrec'
+          simp only [collectLabels]
+          cases hst : stepLabels ls i with
+          | error e => rfl
+          | ok ls' =>
+            simp only []
+            have := ih (pre ++ (b :: t).take i.len) ((b :: t).drop i.len) ls' rest (by rw [← hsplit]; exact hlen) hrec'
+            rw [← hsplit, hlen2] at this
+            rw [hu, this]
+            cases collectLabels ls' rest <;> rfl
+
+theorem specProg_mem (fuel : Nat) : ∀ (pc : Nat) (s : Bytes) (is : List Inst),
+    specProg fuel pc s = .ok is → ∀ i ∈ is, ∃ pc' s', specOp pc' s' = .ok i := by
+  induction fuel with
+  | zero => intro pc s is h; simp [specProg] at h
+  | succ fuel ih =>
+    intro pc s is h
+    unfold specProg at h
+    cases s with
+    | nil => simp only [] at h; injection h with h; subst h; intro i hi; cases hi
+    | cons b t =>
+      simp only [] at h
+      cases hsp : specOp pc (b :: t) with
+      | error e => rw [hsp] at h; cases h
+      | ok i0 =>
+        rw [hsp] at h
+        simp only [] at h
+        cases hrec : specProg fuel (pc + i0.len) ((b :: t).drop i0.len) with
+        | error e => rw [hrec] at h; cases h
+        | ok rest =>
+          rw [hrec] at h
+          injection h with h; subst h
+          intro i hi
+          cases hi with
+          | head => exact ⟨_, _, hsp⟩
+          | tail _ hm => exact ih _ _ _ hrec i hm
+
+
+/-! ### the tokenizer on space-separated plain words -/
+
+theorem forall_uint8 {P : UInt8 → Prop} (h : ∀ n, n < 256 → P (UInt8.ofNat n)) : ∀ b, P b := by
+  intro b
+  have := h b.toNat b.toNat_lt
+  rwa [UInt8.ofNat_toNat] at this
+
+/-- printable, non-space ASCII -/
+def isWordByte (b : UInt8) : Bool := 0x21 ≤ b && b ≤ 0x7e
+
+/-- a token the Scanner returns unchanged: non-empty, printable non-space ASCII, not starting
+    with a quote -/
+structure IsWord (w : Bytes) : Prop where
+  ne : w ≠ []
+  bytes : ∀ b ∈ w, isWordByte b = true
+  noquote : w.head? ≠ some 0x27
+
+theorem wordByte_facts : ∀ b : UInt8, isWordByte b = true →
+    isAsciiSpace b = false ∧ (b == 0xC2) = false ∧ (b == 0xE1) = false ∧ (b == 0xE2) = false ∧
+    (b == 0xE3) = false ∧ latin1Space b = false := by
+  apply forall_uint8
+  decide +kernel
+
+theorem spaceWidth_word {b : UInt8} (rest : Bytes) (h : isWordByte b = true) : spaceWidth (b :: rest) = 0 := by
+  obtain ⟨h1, h2, h3, h4, h5, _⟩ := wordByte_facts b h
+  simp [spaceWidth, h1, h2, h3, h4, h5]
+
+theorem spaceWidth_space (rest : Bytes) : spaceWidth (spaceB :: rest) = 1 := by
+  simp [spaceWidth, spaceB, isAsciiSpace]
+
+theorem wordLen_word (w tl : Bytes) (hw : ∀ b ∈ w, isWordByte b = true) :
+    wordLen (w ++ tl) = ((wordLen tl).1 + w.length, (wordLen tl).2) := by
+  induction w with
+  | nil => simp
+  | cons b t ih =>
+    have hb := hw b (by simp)
+    have := ih (fun x hx => hw x (by simp [hx]))
+    simp only [List.cons_append, wordLen, spaceWidth_word _ hb]
+    simp [this]; omega
+
+theorem wordLen_space (r : Bytes) : wordLen (spaceB :: r) = (0, 1) := by
+  simp [wordLen, spaceWidth_space]
+
+theorem scanWords_word_space (w r : Bytes) (eof : Bool) (hw : IsWord w) :
+    scanWords (w ++ spaceB :: r) eof = (w.length + 1, some w) := by
+  obtain ⟨b, t, rfl⟩ : ∃ b t, w = b :: t := by
+    cases w with
+    | nil => exact absurd rfl hw.ne
+    | cons b t => exact ⟨b, t, rfl⟩
+  have hb := hw.bytes b (by simp)
+  have hls : leadSpaces 0 ((b :: t) ++ spaceB :: r) = 0 := by
+    simp [leadSpaces, spaceWidth_word _ hb]
+  unfold scanWords
+  simp only [hls, List.drop_zero]
+  rw [wordLen_word _ _ hw.bytes, wordLen_space]
+  simp
+
+theorem scanWords_word_eof (w : Bytes) (hw : IsWord w) :
+    scanWords w true = (w.length, some w) := by
+  obtain ⟨b, t, rfl⟩ : ∃ b t, w = b :: t := by
+    cases w with
+    | nil => exact absurd rfl hw.ne
+    | cons b t => exact ⟨b, t, rfl⟩
+  have hb := hw.bytes b (by simp)
+  have hls : leadSpaces 0 (b :: t) = 0 := by
+    simp [leadSpaces, spaceWidth_word _ hb]
+  unfold scanWords
+  simp only [hls, List.drop_zero]
+  have := wordLen_word (b :: t) [] hw.bytes
+  rw [List.append_nil] at this
+  rw [this]
+  simp [wordLen]
+
+theorem split_of_scanWords (inp w : Bytes) (eof : Bool) (adv : Nat) (hw : IsWord w)
+    (hsw : scanWords inp eof = (adv, some w)) (hpre : ∃ tl, inp = w ++ tl) :
+    split inp eof = .tok adv w := by
+  obtain ⟨b, t, rfl⟩ : ∃ b t, w = b :: t := by
+    cases w with
+    | nil => exact absurd rfl hw.ne
+    | cons b t => exact ⟨b, t, rfl⟩
+  obtain ⟨tl, rfl⟩ := hpre
+  have hb := hw.bytes b (by simp)
+  have hq : b ≠ 0x27 := by
+    intro h; apply hw.noquote; simp [h]
+  unfold split
+  simp only [hsw]
+  by_cases hd : (decide ((b :: t).length > 1) && (b :: t).head? != some 0x27) = true
+  · simp only [hd, if_true]
+  · simp only [hd]
+    have hl : latin1Skip (b :: (t ++ tl)) = 0 := by
+      simp [latin1Skip, (wordByte_facts b hb).2.2.2.2.2]
+    simp only [List.cons_append, hl, List.drop_zero]
+    simp [hq]
+
+theorem split_word_space (w r : Bytes) (eof : Bool) (hw : IsWord w) :
+    split (w ++ spaceB :: r) eof = .tok (w.length + 1) w :=
+  split_of_scanWords _ w eof _ hw (scanWords_word_space w r eof hw) ⟨_, rfl⟩
+
+theorem split_word_eof (w : Bytes) (hw : IsWord w) : split w true = .tok w.length w :=
+  split_of_scanWords _ w true _ hw (scanWords_word_eof w hw) ⟨[], by simp⟩
+
+theorem split_nil : split [] true = .more 0 := by
+  simp [split, scanWords, leadSpaces, wordLen, latin1Skip]
+
+
+theorem take_word_space (w tl : Bytes) (x : UInt8) (n : Nat) (h : w.length + 1 ≤ n) :
+    (w ++ x :: tl).take n = w ++ x :: tl.take (n - (w.length + 1)) := by
+  rw [List.take_append]
+  have h1 : w.take n = w := List.take_of_length_le (by omega)
+  have h2 : n - w.length = (n - (w.length + 1)) + 1 := by omega
+  rw [h1, h2, List.take_succ_cons]
+
+theorem drop_word_space (w tl : Bytes) (x : UInt8) : (w ++ x :: tl).drop (w.length + 1) = tl := by
+  rw [List.drop_append]
+  have h1 : w.drop (w.length + 1) = [] := List.drop_of_length_le (by omega)
+  have h2 : w.length + 1 - w.length = 1 := by omega
+  rw [h1, h2]; rfl
+
+/-- the Scanner splits a single-space-separated sequence of plain words (each shorter than
+    the 64 KiB token limit) back into exactly those words, without error -/
+theorem scanAll_words : ∀ (ws : List Bytes) (fuel : Nat),
+    (∀ w ∈ ws, IsWord w ∧ w.length < maxScanTokenSize) → (joinSp ws).length < fuel →
+    scanAll fuel (joinSp ws) = (ws, none) := by
+  intro ws
+  induction ws with
+  | nil =>
+    intro fuel _ hf
+    cases fuel with
+    | zero => omega
+    | succ f => simp [joinSp, scanAll, maxScanTokenSize, split_nil]
+  | cons w rest ih =>
+    intro fuel hws hf
+    obtain ⟨hw, hwl⟩ := hws w (by simp)
+    have hwpos : 1 ≤ w.length := by
+      cases w with
+      | nil => exact absurd rfl hw.ne
+      | cons _ _ => simp
+    cases rest with
+    | nil =>
+      simp only [joinSp] at hf ⊢
+      cases fuel with
+      | zero => omega
+      | succ f =>
+        unfold scanAll
+        have : ¬ (w.length ≥ maxScanTokenSize) := by omega
+        simp only [this, if_false, split_word_eof w hw, List.drop_length]
+        cases f with
+        | zero => omega
+        | succ f' => simp [scanAll, maxScanTokenSize, split_nil]
+    | cons w2 rest2 =>
+      have hjs : joinSp (w :: w2 :: rest2) = w ++ spaceB :: joinSp (w2 :: rest2) := rfl
+      rw [hjs] at hf ⊢
+      cases fuel with
+      | zero => omega
+      | succ f =>
+        have hrec := ih f (fun x hx => hws x (by simp [hx])) (by
+          simp only [List.length_append, List.length_cons] at hf; omega)
+        unfold scanAll
+        by_cases hbig : (w ++ spaceB :: joinSp (w2 :: rest2)).length ≥ maxScanTokenSize
+        · simp only [hbig, if_true]
+          rw [take_word_space _ _ _ _ (by unfold maxScanTokenSize at hwl ⊢; omega), split_word_space _ _ _ hw]
+          simp only [drop_word_space, hrec]
+        · simp only [hbig, if_false, split_word_space _ _ _ hw, drop_word_space, hrec]
+
+
+/-! ### the tokens Disassemble prints for jump-free programs, and what Assemble does with them -/
+
+/-- text of a non-jump instruction (`instText` with no labels) -/
+def textOf (i : Inst) : Bytes :=
+  if i.data.length > 0 then [0x30, 0x78] ++ hexEncode i.data else opName i.op
+
+/-- the bytes Assemble emits for that text -/
+def canonBytes (i : Inst) : Bytes :=
+  if i.data.length > 0 then pushDataBytes i.data else [i.op]
+
+/-- the instruction those bytes parse to -/
+def canonInst (i : Inst) : Inst :=
+  if i.data.length > 0 then ⟨pushOp i.data.length, i.data.length + pushHdr i.data.length, i.data⟩ else i
+
+/-- the assembler knows the opcode's printed name and maps it back to the opcode -/
+def Nameable (op : UInt8) : Bool :=
+  lookupName (opName op) == some op.toNat &&
+  !(strPUSHDATA.isPrefixOf (opName op) || strJUMP.isPrefixOf (opName op))
+
+def isWordB (w : Bytes) : Bool := !w.isEmpty && w.all isWordByte && w.head? != some 0x27
+
+theorem isWord_of_B {w : Bytes} (h : isWordB w = true) : IsWord w := by
+  simp only [isWordB, Bool.and_eq_true, Bool.not_eq_true', List.all_eq_true, bne_iff_ne] at h
+  exact ⟨by intro h0; rw [h0] at h; simp at h, h.1.2, h.2⟩
+
+theorem opName_word : ∀ op : UInt8, isWordB (opName op) = true ∧ (opName op).length < 32 := by
+  apply forall_uint8
+  decide +kernel
+
+theorem hexDigit_facts : ∀ n, n < 16 → isWordByte (hexDigit n) = true ∧ hexVal (hexDigit n) = some n := by
+  decide
+
+theorem hexEncode_bytes (d : Bytes) : ∀ b ∈ hexEncode d, isWordByte b = true := by
+  induction d with
+  | nil => intro b hb; cases hb
+  | cons x t ih =>
+    intro b hb
+    simp only [hexEncode, List.mem_cons] at hb
+    have hx := x.toNat_lt
+    rcases hb with rfl | rfl | hb
+    · exact (hexDigit_facts _ (by omega)).1
+    · exact (hexDigit_facts _ (by omega)).1
+    · exact ih b hb
+
+theorem hexEncode_length (d : Bytes) : (hexEncode d).length = 2 * d.length := by
+  induction d with
+  | nil => rfl
+  | cons x t ih => simp [hexEncode, ih]; omega
+
+theorem hexDecode_encode (d : Bytes) : hexDecode (hexEncode d) = some d := by
+  induction d with
+  | nil => rfl
+  | cons x t ih =>
+    have hx := x.toNat_lt
+    simp only [hexEncode, hexDecode, (hexDigit_facts _ (show x.toNat / 16 < 16 by omega)).2,
+      (hexDigit_facts _ (show x.toNat % 16 < 16 by omega)).2, ih]
+    have : x.toNat / 16 * 16 + x.toNat % 16 = x.toNat := by omega
+    simp [this, byte]
+
+theorem hexToken_word (d : Bytes) : IsWord ([0x30, 0x78] ++ hexEncode d) := by
+  refine ⟨by simp, ?_, by simp⟩
+  intro b hb
+  simp only [List.cons_append, List.nil_append, List.mem_cons] at hb
+  rcases hb with rfl | rfl | hb
+  · decide
+  · decide
+  · exact hexEncode_bytes d b hb
+
+theorem textOf_word (i : Inst) (hl : i.data.length < 32767) :
+    IsWord (textOf i) ∧ (textOf i).length < maxScanTokenSize := by
+  unfold textOf
+  split
+  · refine ⟨hexToken_word _, ?_⟩
+    simp [hexEncode_length, maxScanTokenSize]; omega
+  · exact ⟨isWord_of_B (opName_word i.op).1, by have := (opName_word i.op).2; unfold maxScanTokenSize; omega⟩
+
+theorem lookup_none_of_pred {α β : Type} [BEq α] [LawfulBEq α] (f : α → Bool) :
+    ∀ (l : List (α × β)) (t : α), l.all (fun kv => !f kv.1) = true → f t = true → l.lookup t = none := by
+  intro l
+  induction l with
+  | nil => intro t _ _; rfl
+  | cons kv r ih =>
+    intro t hall ht
+    simp only [List.all_cons, Bool.and_eq_true, Bool.not_eq_true'] at hall
+    obtain ⟨k, v⟩ := kv
+    have hne : (t == k) = false := by
+      cases hk : t == k with
+      | false => rfl
+      | true => have := eq_of_beq hk; subst this; rw [ht] at hall; cases hall.1
+    simp only [List.lookup, hne]
+    exact ih t hall.2 ht
+
+theorem no_name_starts_0x : Ops.opsByName.all (fun kv => !(([0x30, 0x78] : Bytes).isPrefixOf kv.1)) = true := by
+  decide +kernel
+
+theorem lookupName_hex (d : Bytes) : lookupName ([0x30, 0x78] ++ hexEncode d) = none :=
+  lookup_none_of_pred (fun t => ([0x30, 0x78] : Bytes).isPrefixOf t) _ _ no_name_starts_0x (by simp [List.isPrefixOf])
+
+theorem asmToken_hex (st : AState) (d : Bytes) :
+    asmToken st ([0x30, 0x78] ++ hexEncode d) = .ok { st with res := st.res ++ pushDataBytes d } := by
+  unfold asmToken
+  rw [lookupName_hex]
+  simp [strJUMPc, strJUMPIFc, List.isPrefixOf, dollar, hexDecode_encode]
+
+theorem asmToken_name (st : AState) (op : UInt8) (h : Nameable op = true) :
+    asmToken st (opName op) = .ok { st with res := st.res ++ [op] } := by
+  unfold Nameable at h
+  simp only [Bool.and_eq_true, beq_iff_eq, Bool.not_eq_true'] at h
+  unfold asmToken
+  rw [h.1]
+  simp only [h.2]
+  simp [byte]
+
+theorem asmTokens_text (is : List Inst) : ∀ (st : AState),
+    (∀ i ∈ is, i.data.length = 0 → Nameable i.op = true) →
+    asmTokens st (is.map textOf) = .ok { st with res := st.res ++ (is.map canonBytes).flatten } := by
+  induction is with
+  | nil => intro st _; simp [asmTokens]
+  | cons i r ih =>
+    intro st h
+    have hr := fun st' => ih st' (fun x hx => h x (by simp [hx]))
+    simp only [List.map_cons, asmTokens, List.flatten_cons]
+    by_cases hd : i.data.length > 0
+    · have e1 : textOf i = [0x30, 0x78] ++ hexEncode i.data := by simp [textOf, hd]
+      have e2 : canonBytes i = pushDataBytes i.data := by simp [canonBytes, hd]
+      rw [e1, asmToken_hex, e2]
+      simp only []
+      rw [hr]
+      simp [List.append_assoc]
+    · have e1 : textOf i = opName i.op := by simp [textOf, hd]
+      have e2 : canonBytes i = [i.op] := by simp [canonBytes, hd]
+      rw [e1, asmToken_name _ _ (h i (by simp) (by omega)), e2]
+      simp only []
+      rw [hr]
+      simp [List.append_assoc]
+
+
+/-! ### jump-free programs: Disassemble, then parsing the re-assembled bytes -/
+
+theorem collectLabels_nojump (is : List Inst) (ls : List (Nat × Nat))
+    (h : ∀ i ∈ is, isJump i.op = false) : collectLabels ls is = .ok ls := by
+  induction is with
+  | nil => rfl
+  | cons i r ih =>
+    simp only [collectLabels, stepLabels, h i (by simp)]
+    exact ih (fun x hx => h x (by simp [hx]))
+
+theorem instText_nojump (i : Inst) (hi : isJump i.op = false) : instText [] i = .ok (textOf i) := by
+  unfold instText textOf
+  simp only [hi]
+  by_cases hd : i.data.length > 0 <;> simp [hd]
+
+theorem disPass2_nojump (is : List Inst) (loc : Nat) (h : ∀ i ∈ is, isJump i.op = false) :
+    disPass2 [] is loc = .ok (is.map textOf) := by
+  induction is generalizing loc with
+  | nil => rfl
+  | cons i r ih =>
+    have hi := h i (by simp)
+    simp only [disPass2, List.lookup, instText_nojump i hi]
+    rw [ih _ (fun x hx => h x (by simp [hx]))]
+    simp
+
+theorem nameable_facts : ∀ op : UInt8, Nameable op = true →
+    op.toNat ≠ Ops.OP_PUSHDATA1 ∧ op.toNat ≠ Ops.OP_PUSHDATA2 ∧ op.toNat ≠ Ops.OP_PUSHDATA4 ∧ isJump op = false := by
+  apply forall_uint8
+  decide +kernel
+
+/-- a parsed instruction without data that the assembler can name is a plain one-byte op -/
+theorem specOp_nodata {pc : Nat} {s : Bytes} {i : Inst} (h : specOp pc s = .ok i)
+    (hd : i.data.length = 0) (hn : Nameable i.op = true) : IsPlain i.op ∧ i.len = 1 := by
+  cases s with
+  | nil => simp [specOp] at h
+  | cons op rest =>
+  unfold specOp at h
+  simp only [] at h
+  by_cases b1 : Ops.OP_1 ≤ op.toNat ∧ op.toNat ≤ Ops.OP_16
+  · simp only [b1, and_self, if_true] at h
+    injection h with h; subst h; simp at hd
+  simp only [b1, if_false] at h
+  by_cases b2 : Ops.OP_DATA_1 ≤ op.toNat ∧ op.toNat ≤ Ops.OP_DATA_75
+  · simp only [b2, and_self, if_true] at h
+    obtain ⟨hle, rfl⟩ := specData_ok h
+    simp only [Ops.OP_DATA_1] at b2
+    simp only [List.length_take] at hd
+    omega
+  simp only [b2, if_false] at h
+  by_cases b3 : op.toNat = Ops.OP_PUSHDATA1
+  · exfalso
+    simp only [b3, if_true] at h
+    have : i.op = op := by
+      cases rest with
+      | nil => simp at h
+      | cons n r => simp only [] at h; obtain ⟨_, rfl⟩ := specData_ok h; rfl
+    rw [this] at hn
+    exact (nameable_facts op hn).1 b3
+  simp only [b3, if_false] at h
+  by_cases b4 : op.toNat = Ops.OP_PUSHDATA2
+  · exfalso
+    simp only [b4, if_true] at h
+    have : i.op = op := by
+      match rest, h with
+      | [], h => simp at h
+      | [_], h => simp at h
+      | a :: b :: r, h => simp only [] at h; obtain ⟨_, rfl⟩ := specData_ok h; rfl
+    rw [this] at hn
+    exact (nameable_facts op hn).2.1 b4
+  simp only [b4, if_false] at h
+  by_cases b5 : op.toNat = Ops.OP_PUSHDATA4
+  · exfalso
+    simp only [b5, if_true] at h
+    have : i.op = op := by
+      match rest, h with
+      | [], h => simp at h
+      | [_], h => simp at h
+      | [_, _], h => simp at h
+      | [_, _, _], h => simp at h
+      | a :: b :: c :: d :: r, h =>
+        simp only [] at h
+        split at h
+        · cases h
+        · obtain ⟨_, rfl⟩ := specData_ok h; rfl
+    rw [this] at hn
+    exact (nameable_facts op hn).2.2.1 b5
+  simp only [b5, if_false] at h
+  by_cases b6 : op.toNat = Ops.OP_JUMP ∨ op.toNat = Ops.OP_JUMPIF
+  · simp only [b6, if_true] at h
+    obtain ⟨hle, rfl⟩ := specData_ok h
+    simp only [List.length_take] at hd
+    omega
+  simp only [b6, if_false] at h
+  injection h with h; subst h
+  exact ⟨⟨b1, b2, b3, b4, b5, b6⟩, rfl⟩
+
+theorem canonBytes_length (i : Inst) :
+    1 ≤ (canonBytes i).length ∧ (canonBytes i).length ≤ i.data.length + 5 := by
+  unfold canonBytes
+  split
+  · rw [pushDataBytes_length]; have := pushHdr_bounds i.data.length; omega
+  · simp
+
+/-- parsing the concatenated canonical encodings gives the canonical instructions -/
+theorem specProg_canon (is : List Inst) : ∀ (fuel pc : Nat),
+    (∀ i ∈ is, (∃ pc' s', specOp pc' s' = .ok i) ∧ (i.data.length = 0 → Nameable i.op = true)) →
+    is.length < fuel → pc + ((is.map canonBytes).flatten).length + 5 < 4294967296 →
+    specProg fuel pc ((is.map canonBytes).flatten) = .ok (is.map canonInst) := by
+  induction is with
+  | nil =>
+    intro fuel pc _ hf _
+    cases fuel with
+    | zero => omega
+    | succ f => rfl
+  | cons i r ih =>
+    intro fuel pc h hf hb
+    cases fuel with
+    | zero => omega
+    | succ f =>
+      obtain ⟨⟨pc', s', hsp⟩, hn⟩ := h i (by simp)
+      simp only [List.map_cons, List.flatten_cons, List.length_append] at hb ⊢
+      simp only [List.length_cons] at hf
+      by_cases hd : i.data.length > 0
+      · have e2 : canonBytes i = pushDataBytes i.data := by simp [canonBytes, hd]
+        have e3 : canonInst i = ⟨pushOp i.data.length, i.data.length + pushHdr i.data.length, i.data⟩ := by
+          simp [canonInst, hd]
+        rw [e2] at hb ⊢
+        rw [pushDataBytes_length] at hb
+        rw [specProg_push _ _ (by omega), ih f _ (fun x hx => h x (by simp [hx])) (by omega) (by omega), e3]
+      · have hd0 : i.data.length = 0 := by omega
+        obtain ⟨hpl, hl1⟩ := specOp_nodata hsp hd0 (hn hd0)
+        have e2 : canonBytes i = [i.op] := by simp [canonBytes, hd]
+        have e3 : canonInst i = ⟨i.op, 1, []⟩ := by
+          have : i.data = [] := List.eq_nil_of_length_eq_zero hd0
+          simp only [canonInst, hd, if_false]
+          cases i; simp_all
+        rw [e2] at hb ⊢
+        simp only [List.singleton_append, List.length_cons, List.length_nil] at hb ⊢
+        rw [specProg_plain _ hpl, ih f _ (fun x hx => h x (by simp [hx])) (by omega) (by omega), e3]
+
+theorem Tiling.canon_length {is : List Inst} {p : Bytes} (h : Tiling is p) :
+    is.length ≤ ((is.map canonBytes).flatten).length ∧
+    ((is.map canonBytes).flatten).length ≤ 6 * p.length := by
+  induction h with
+  | nil => simp
+  | @cons i bs is rest he _ ih =>
+    have hc := canonBytes_length i
+    have hdl : i.data.length ≤ i.len := by
+      have hdat := he.data
+      split at hdat
+      · rw [hdat.1, hdat.2]; simp
+      · rw [hdat.1, List.length_drop, he.len_eq]; omega
+    have hpos := he.pos
+    have hle := he.len_eq
+    simp only [List.map_cons, List.flatten_cons, List.length_append, List.length_cons]
+    omega
+
 end BytomModel.Lemmas.Asm
